@@ -69,6 +69,27 @@ def in_class(cls, script, recorded):
                     return True
                 depth_open.append("in")
         return False
+    if cls == "cross-sink":
+        # a talkback call `U<k>…` of sink k made while share is delivering to ANOTHER sink (or delivering a terminal message):
+        # legal only by the cross-sink clause of lean/CallbagModel/EnvX.lean
+        stack = []
+        for t in toks:
+            if t.startswith(">"):
+                stack.append(t)
+            elif t in ("R", "<"):
+                if stack: stack.pop()
+            elif t[0] in "SUGD":
+                if t.startswith("U") and stack and stack[-1].startswith(">"):
+                    top = stack[-1]
+                    import re
+                    mk = re.match(r"U(\d+)", t); mo = re.match(r">([GD])(\d+)(.*)", top)
+                    if mk and mo:
+                        same = mk.group(1) == mo.group(2)
+                        data = mo.group(1) == "G" or mo.group(3).startswith("d")
+                        if not (same and data):
+                            return True
+                stack.append(t)
+        return False
     return False
 
 
